@@ -142,6 +142,10 @@ Fixpoint to_js (fm : bool) (en : env) (e : expr) {struct e} : js :=
     | None => js_prop fm (nm en n)
     end
   | EAcc _ _ => JLit ""       (* the <name> of <x>: outside the JavaScript theorems (js_ok); x.name would need the receiver rules *)
+  | EKey n =>
+    let name := nm en n in
+    if String.eqb name "date" || String.eqb name "time" then JCall "_system.date" [JLit ("'" ++ name ++ "'")]
+    else JMember (match assoc_str name OPERATION_KNOWN_PROPERTIES with Some o => o | None => "_key" end) name
   end.
 
 (* side conditions: locals are plain local-variable nodes; call names have no translation of their own *)
@@ -227,6 +231,11 @@ Fixpoint name_e (fm : bool) (en : env) (e : expr) {struct e} : nexpr :=
     | None => NProp (match assoc_str (nm en n) VARIABLE_KNOWN_PROPERTIES with Some o => o | None => if fm then "this" else "me" end) (nm en n)
     end
   | EAcc _ _ => NLit ""
+  | EKey n =>
+    let name := nm en n in
+    if String.eqb name "date" || String.eqb name "time" then NCall "_system.date" [NLit ("'" ++ name ++ "'")]
+    else let o := match assoc_str name OPERATION_KNOWN_PROPERTIES with Some o => o | None => "_key" end in
+         if String.eqb o "_global" then NGlob name else NProp o name
   end.
 
 Definition all_binops : list binop :=
